@@ -311,7 +311,7 @@ class Run:
             if rc == 0 and "No error has been found" in out:
                 return set(t for t, _ in items), rejections, deviations
             m = re.search(r'<<"REJECTED_AT", (\d+)>>', out)
-            if not m and retries < 2:
+            if not m and retries < 2 and rc != 150:       # 150 = the specification does not parse: no point in retrying
                 # TLC itself failed (seen under heavy machine load: exit 255 without a verdict): try again
                 retries += 1
                 self.log("validate %s: TLC ended with rc=%d and no verdict; retry %d" % (module, rc, retries))
@@ -320,7 +320,7 @@ class Run:
             if not m:
                 errs = [x for x in out.splitlines() if x.startswith("Error") or "Exception" in x or "Attempted" in x or "violated" in x]
                 self.log("\n".join(errs[:20]))
-                self.log(out[-5000:])
+                self.log(out[-2500:] if rc != 150 else "\n".join(out.splitlines()[-60:-40]))
                 raise Inconclusive("trace validation with %s failed without a rejection point (rc=%d)" % (module, rc))
             k = int(m.group(1))                     # 1-based index of the first unmatched line
             tid = items[k - 1][0]
